@@ -287,6 +287,8 @@ def main(tier):
                                {"config": bcfg, "role": "Benign"})
                 finally:
                     sim.close()
+            # (c3) the global-defender switch, in what the game does
+            CC.probe_defender_switch(lambda tags, sig, desc, rep: V.fail(sig, desc, rep) if "C19" in tags else None, cstats)
             # (d2) the documented 'all_attackers' keyword of the Defender goal
             CC.probe_all_attackers_goal(lambda tags, sig, desc, rep: V.fail(sig, desc, rep) if "C19" in tags else None, cstats)
             # (e) behaviour: sessions whose model settings come from the file through the model's reader
